@@ -167,7 +167,7 @@ def configs(tier: str, prop: str) -> list[dict[str, Any]]:
     for name in hand_models():
         out.append({"kind": "hand", "name": name, "seed": 0, "params": {}, "entropies": [0, 1], "wide": not quick})
     if prop == "C13":
-        nseeds = 6 if quick else 96
+        nseeds = 6 if quick else 48
     else:
         nseeds = 4 if quick else 48
     for s in range(nseeds):
@@ -196,7 +196,7 @@ def configs(tier: str, prop: str) -> list[dict[str, Any]]:
         ("never-identifiers", {"p_identifier": 0.0, "p_correct_payload_format": 0.0, "p_dtc_status_mask": 0.0, "p_service": 1.0, "p_session": 0.0}),
         ("no-mandatory-service", {"mandatory_services": [], "p_service": 0.3}),
     ]
-    gseeds = (0,) if quick else tuple(range(8))
+    gseeds = (0,) if quick else tuple(range(4))
     for name, params in grid:
         for s in gseeds:
             out.append({"kind": "rng", "name": f"{name}/{s}", "seed": s, "params": params, "entropies": [0, 1], "wide": not quick})
